@@ -1230,7 +1230,10 @@ def k16(ctx):
     n = 0
     for fid in sorted(reg["members"]):
         root = crate.bodies[fid]
-        for b in root.all_bodies():
+        for b0 in root.all_bodies():
+            mir.default_inline_policy(crate)
+            # (a `mk_proven_perm(elem, proof)` constructor helper is looked through; the proof combinators stay calls)
+            b = mir.inline_view(crate, b0, depth=2, policy=crate._cache.get("accessor_policy", set()), keep=("prove_transitivity", "prove_symmetry", "prove_reflexivity", "disassociate_proven_eq", "proven_find_applied_id"))
             for bi, f in _aggs(b, "perm::ProvenPerm"):
                 pr = f.get("proof", "")
                 if not pr.startswith("prove_transitivity("):
